@@ -203,3 +203,38 @@ Theorem C03_pb_qr_tall_adjoint (K : fieldType) (m n : nat) : (2%:R : K) != 0 ->
   ip Qbar dQ + ip Rbar dR = ip Abar dA.
 Proof. exact: pb_qr_tall_adjoint. Qed.
 Print Assumptions C03_pb_qr_tall_adjoint.
+
+(* ---- reductions and replications (Reduce.v, ReduceSpec.v): on every coefficient slice the forward map is a GATHER (tile, diag, reshape,
+   getitem, transpose, broadcasting) or a SCATTER-ADD (sum over an axis, sum of everything); the two are transposed maps, so the reverse
+   rules as coded (pb_sum: broadcast ybar back; pb_tile: add every tile of Bbar; pb_diag: add diag(ybar)) are the adjoints, and by
+   bilinearity of the Cauchy pairing this holds at every Taylor order d. *)
+From AlgoV Require Import Array Reduce ReduceSpec.
+Theorem C03_gather_adjoint (R : comRingType) (idx : seq nat) (x ybar : seq R) : all (fun o => (o < size x)%N) idx -> size ybar = size idx ->
+  dotp (gatherV idx x) ybar = dotp x (scatter_add idx ybar (size x)).
+Proof. exact: gather_adjoint. Qed.
+Theorem C03_scatter_adjoint (R : comRingType) (idx : seq nat) (x ybar : seq R) n : all (fun o => (o < n)%N) idx -> size x = size idx -> size ybar = n ->
+  dotp (scatter_add idx x n) ybar = dotp x (gatherV idx ybar).
+Proof. exact: scatter_adjoint. Qed.
+Theorem C03_gather_adjoint_series (R : comRingType) (idx : seq nat) (xs ybars : nat -> seq R) (n d : nat) :
+  all (fun o => (o < n)%N) idx -> (forall c, size (xs c) = n) -> (forall c, size (ybars c) = size idx) ->
+  \sum_(c < d.+1) dotp (gatherV idx (xs c)) (ybars (d - c)%N) = \sum_(c < d.+1) dotp (xs c) (scatter_add idx (ybars (d - c)%N) n).
+Proof. exact: gather_adjoint_series. Qed.
+Theorem C03_pb_sum_axis_adjoint (R : comRingType) (s : shape) (a : nat) (x ybar : seq R) : (a < size s)%N -> size x = nelem s -> size ybar = nelem (drop_nth a s) ->
+  dotp (sum_axis_fwd s a x) ybar = dotp x (pb_sum_axis s a ybar).
+Proof. exact: pb_sum_axis_adjoint. Qed.
+Theorem C03_pb_sum_all_adjoint (R : comRingType) (s : shape) (x ybar : seq R) : size x = nelem s -> size ybar = 1%N ->
+  dotp (sum_all_fwd s x) ybar = dotp x (pb_sum_all s ybar).
+Proof. exact: pb_sum_all_adjoint. Qed.
+Theorem C03_pb_tile_adjoint (R : comRingType) (s reps : shape) (x bbar : seq R) : size reps = size s -> size x = nelem s -> size bbar = nelem (tile_shape s reps) ->
+  dotp (tile_fwd s reps x) bbar = dotp x (pb_tile s reps bbar).
+Proof. exact: pb_tile_adjoint. Qed.
+Theorem C03_pb_diag_adjoint (R : comRingType) (n : nat) (x ybar : seq R) : size x = (n * n)%N -> size ybar = n ->
+  dotp (diag_fwd n x) ybar = dotp x (pb_diag n ybar).
+Proof. exact: pb_diag_adjoint. Qed.
+Print Assumptions C03_gather_adjoint.
+Print Assumptions C03_scatter_adjoint.
+Print Assumptions C03_gather_adjoint_series.
+Print Assumptions C03_pb_sum_axis_adjoint.
+Print Assumptions C03_pb_sum_all_adjoint.
+Print Assumptions C03_pb_tile_adjoint.
+Print Assumptions C03_pb_diag_adjoint.
